@@ -33,6 +33,7 @@ type vWorld struct {
 	out    []string
 	failK  int
 	crashK int
+	sessUid map[string]types.Uid // the user each session logged in as (a restart stands for new connections: logged in again)
 	uaTimers map[*Topic]*time.Timer
 	curUA  map[*Topic]*string
 }
@@ -166,6 +167,13 @@ func (w *vWorld) realTopic(sym string, asUid types.Uid) string {
 	return sym // me, fnd, sys, new..., or a raw (possibly ill-formed) name
 }
 
+func vBit(b bool) string {
+	if b {
+		return "1"
+	}
+	return "0"
+}
+
 func vTok(v any) string {
 	if v == nil {
 		return "-"
@@ -279,7 +287,12 @@ func (w *vWorld) renderMsg(m *ServerComMessage) string {
 		if m.Info.Payload != nil {
 			ev += " payload=" + vTok(string(m.Info.Payload))
 		}
-		return fmt.Sprintf("info %s from=%s what=%s seq=%d%s", w.tname(m.Info.Topic), w.tname(m.Info.From), m.Info.What, m.Info.SeqId, ev)
+		src := ""
+		if m.Info.Src != "" {
+			// delivered on 'me': the topic the note is about
+			src = " src=" + w.tname(m.Info.Src)
+		}
+		return fmt.Sprintf("info %s%s from=%s what=%s seq=%d%s", w.tname(m.Info.Topic), src, w.tname(m.Info.From), m.Info.What, m.Info.SeqId, ev)
 	case m.Pres != nil:
 		p := m.Pres
 		s := fmt.Sprintf("pres %s src=%s what=%s", w.tname(p.Topic), w.tname(p.Src), p.What)
@@ -369,6 +382,25 @@ func (w *vWorld) drainSessions() []string {
 				out = append(out, sn+"<-raw")
 			}
 		}
+	}
+	// What reaches a session through its `me` topic comes from several topics at once (presUsersOfInterest walks a map, every
+	// contact answers on its own): the order of consecutive `me` notifications at a session is not defined; they are compared sorted.
+	isMe := func(f string) bool {
+		i := strings.Index(f, "<-")
+		return i >= 0 && (strings.HasPrefix(f[i+2:], "pres me ") || strings.HasPrefix(f[i+2:], "info me "))
+	}
+	sidOf := func(f string) string { return f[:strings.Index(f, "<-")] }
+	for i := 0; i < len(out); {
+		if !isMe(out[i]) {
+			i++
+			continue
+		}
+		j := i
+		for j < len(out) && isMe(out[j]) && sidOf(out[j]) == sidOf(out[i]) {
+			j++
+		}
+		sort.Strings(out[i:j])
+		i = j
 	}
 	return out
 }
@@ -710,9 +742,22 @@ func (w *vWorld) cacheDigest() []string {
 		if t.isReadOnly() {
 			st += " readonly"
 		}
-		out = append(out, fmt.Sprintf("cache %s last=%d del=%d owner=%s acs=%s/%s pub=%s tr=%s tags=[%s]%s users[%s] sess[%s]", w.tname(t.name),
+		contacts := ""
+		if t.cat == types.TopicCatMe {
+			// the contact table of a 'me' topic: whom the user exchanges presence with, last known online, enabled
+			cs := []string{}
+			for name, psd := range t.perSubs {
+				cs = append(cs, fmt.Sprintf("%s:%s:%s", w.tname(name), vBit(psd.online), vBit(psd.enabled)))
+			}
+			sort.Strings(cs)
+			contacts = " contacts[" + strings.Join(cs, " ") + "]"
+			if t.isLoaded() {
+				contacts += " announced"
+			}
+		}
+		out = append(out, fmt.Sprintf("cache %s last=%d del=%d owner=%s acs=%s/%s pub=%s tr=%s tags=[%s]%s users[%s] sess[%s]%s", w.tname(t.name),
 			t.lastID, t.delID, w.uname(t.owner), vMode(t.accessAuth.String()), vMode(t.accessAnon.String()), vTok(t.public), vTok(t.trusted),
-			strings.Join(t.tags, ","), st, strings.Join(us, " "), strings.Join(ss, " ")))
+			strings.Join(t.tags, ","), st, strings.Join(us, " "), strings.Join(ss, " "), contacts))
 	}
 	return out
 }
@@ -927,6 +972,10 @@ func (w *vWorld) op(ws []string) (string, bool) {
 			s.background = true
 		}
 		w.sess[ws[1]] = s
+		if w.sessUid == nil {
+			w.sessUid = map[string]types.Uid{}
+		}
+		w.sessUid[ws[1]] = s.uid
 		w.order = append(w.order, ws[1])
 		return "ok", true
 	case "fail":
@@ -1139,6 +1188,7 @@ func (w *vWorld) op(ws []string) (string, bool) {
 		globals.hub.topics = &sync.Map{}
 		for _, sn := range w.order {
 			s := w.sess[sn]
+			s.uid = w.sessUid[sn]
 			s.subsLock.Lock()
 			s.subs = make(map[string]*Subscription)
 			s.subsLock.Unlock()
